@@ -114,3 +114,14 @@ Example fl_examples :
    fsum [f (1 # 10)%Q; f (2 # 10)%Q; f (3 # 10)%Q] = fl (6 # 10)%Q /\
    obind (fadd (f (1 # 10)%Q) (f (2 # 10)%Q)) (fun s => fadd s (f (3 # 10)%Q)) = Some (1351079888211149 # 2251799813685248)%Q).
 Proof. vm_compute. repeat split. Qed.
+
+(* relative error at most 2^-53: on the scaled fraction p/q (a/b times a power of two) and the scaled result m*c *)
+Corollary rnd64_relative_error a b m k : 0 < a -> 0 < b -> rnd64 a b = Some (m, k) ->
+  exists e0 p q c, scaled2 a b e0 = (p, q) /\ 0 < q /\ (c = 1 \/ c = 2) /\ k = e0 - 52 + (if c =? 1 then 0 else 1) /\
+                   2 ^ 53 * Z.abs (p - q * (m * c)) <= p.
+Proof.
+  intros Ha Hb H. destruct (rnd64_spec a b m k Ha Hb H) as (_ & _ & e0 & p & q & c & Es & Hq & [B1 B2] & Hc & Hk & Hr).
+  exists e0, p, q, c. split; [exact Es|]. split; [exact Hq|]. split; [exact Hc|]. split; [exact Hk|].
+  change (2 ^ 53) with (2 ^ 52 * 2). remember (2 ^ 52) as A. remember (Z.abs (p - q * (m * c))) as D.
+  assert (0 <= D) by (subst D; apply Z.abs_nonneg). nia.
+Qed.
